@@ -195,6 +195,14 @@ def check(run):
         gamma[:specs[0].size, specs[0].size:] *= 1e4         # the far pair carries the electronic term
         gamma[specs[0].size:, :specs[0].size] *= 1e4
         one_case(run, specs, gamma, pts, npos, np.array([1.0, -1.0]), 0.0, None, "diffuse shells far apart")
+    # tall transformations (more orbitals than basis functions: linearly dependent orbitals), one and several extra rows
+    for n, extra in enumerate((1, 3) if quick else (1, 3, 2, 5)):
+        specs = random_basis(rng, 1, 2, lmax=1 if quick else 2, exp_hi=20.0, nprim=None)
+        nb = sum(s.size for s in specs)
+        t = np.array([[core.snap(rng.uniform(-1, 1), 10) for _ in range(nb)] for _ in range(nb + extra)])
+        gamma = random_symmetric(rng, nb + extra, psd=bool(n % 2))
+        npos = np.array([[0.5, -0.25, 1.0], [-1.0, 0.75, 0.25]])
+        one_case(run, specs, gamma, np.array([[0.1, 0.2, 0.3], [1.5, -1.0, 0.5], [-0.7, 0.4, 2.0]]), npos, np.array([1.0, 6.0]), 0.0, t, "tall transform")
     # the coordinate origin as the only evaluation point (once, twice, integer typed), for a molecule that is not at the origin
     for n, pts_ in enumerate((np.zeros((1, 3)), np.zeros((2, 3)), np.zeros((1, 3), dtype=int), np.array([[0.0, 0.0, 0.0], [0.0, 0.0, 1e-300]]))):
         specs = random_basis(rng, 1, 2, lmax=2, exp_hi=20.0, nprim=None)
